@@ -17,7 +17,7 @@ Spec == Init /\ [][Next]_t
 
 Judge ==
   LET r     == Trace[t]
-      fails == C02_Failures(r.toks, r.res, r.want)
+      fails == C02_Failures(r.toks, [r.res EXCEPT !.tree = Unflat(@)], Unflat(r.want))
   IN fails = {} \/ PrintT(<<"FAIL", r.id, fails>>)
 
 Accepted == (TLCGet("distinct") = N) \/ PrintT(<<"REJECTED", TLCGet("distinct"), N>>)
